@@ -298,8 +298,69 @@ def affine_worker(task: Tuple) -> Dict[str, Any]:
                     acc.ob("sat", name, key)
                     acc.out["viol"].append((f"C06:{op}:{label}", f"{op} on {label}: the result is not K(a) "
                                             f"{'+' if op == 'add' else '-'} K(b)", rp(m)))
-        acc.sample({"scales": task[0], "ops": "add sub with the left operand in an absolute unit"})
+            # order between the two scales, both operand orders: decided by the kelvin values alone
+            def cmpfn() -> Any:
+                from measured import Quantity
+
+                a, b = Quantity(mk("float", X), U), Quantity(mk("float", Y), V)
+                return {"lt_ab": a < b, "le_ab": a <= b, "gt_ab": a > b, "ge_ab": a >= b,
+                        "lt_ba": b < a, "le_ba": b <= a, "gt_ba": b > a, "ge_ba": b >= a}
+
+            ex = explore(cmpfn, max_paths=64)
+            acc.explored(ex)
+            KA, KB = symnum.q(kU[0]) * X, symnum.q(kV[0]) * Y + symnum.q(kV[1])
+            margin = symnum.q(Fraction(1, 10 ** 7)) * (absz(KA) + absz(KB) + 1)
+            for i, p in enumerate(ex.paths):
+                key, name = (label, "order", i), f"{label}:order#p{i}(scales)"
+                rp = lambda m: order_replay(uc, vc, m, kU, kV)
+                if p.exc is not None:
+                    acc.ob("sat", name + ":raises", key)
+                    mm = acc.P.shaped_model([p.cond], [X, Y])
+                    acc.out["viol"].append((f"C06:raises:order:{label}", f"{p.outcome} from ordering {label}",
+                                            rp(mm or {})))
+                    continue
+                o = {k: bool_term(v) for k, v in p.result.items()}
+                below = z3.And(o["lt_ab"], o["le_ab"], z3.Not(o["gt_ab"]), z3.Not(o["ge_ab"]),
+                               o["gt_ba"], o["ge_ba"], z3.Not(o["lt_ba"]), z3.Not(o["le_ba"]))
+                above = z3.And(o["gt_ab"], o["ge_ab"], z3.Not(o["lt_ab"]), z3.Not(o["le_ab"]),
+                               o["lt_ba"], o["le_ba"], z3.Not(o["gt_ba"]), z3.Not(o["ge_ba"]))
+                goal = z3.And(z3.Implies(KA < KB - margin, below), z3.Implies(KA > KB + margin, above))
+                r, _ = acc.P.check(p.cond, z3.Not(goal))
+                if r != "sat":
+                    acc.ob("unsat" if r == "unsat" else "unknown", name, key)
+                    continue
+                far = absz(KA - KB) > 4 * margin
+                small = [X >= -1000, X <= 1000, Y >= -1000, Y <= 1000]
+                m = acc.P.shaped_model([p.cond, z3.Not(goal), far, *small], [X, Y]) or \
+                    acc.P.shaped_model([p.cond, z3.Not(goal), far], [X, Y])
+                if m is None:
+                    acc.ob("unknown", name + "(witness only inside the rounding-tie zone)", key)
+                    continue
+                acc.ob("sat", name, key)
+                acc.out["viol"].append((f"C06:order:{label}", f"order between {label} disagrees with the kelvin "
+                                        f"values at {({k: str(v) for k, v in m.items()})}", rp(m)))
+        acc.sample({"scales": task[0], "ops": "add sub with the left operand in an absolute unit; < <= > >= in both orders"})
     return acc.finish()
+
+
+def order_replay(uc: str, vc: str, m: Dict[str, Fraction], kU: Tuple, kV: Tuple) -> str:
+    return families.REPLAY_IMPORTS + f"""
+U, V = {uc}, {vc}
+x, y = {float(m.get('x', Fraction(300)))!r}, {float(m.get('y', Fraction(20)))!r}
+(a1, b1), (a2, b2) = {tuple(map(float, kU))!r}, {tuple(map(float, kV))!r}    # kelvin = a*magnitude + b, from the declarations
+a, b = x * U, y * V
+KA, KB = a1 * x + b1, a2 * y + b2
+obs = dict(lt_ab=a < b, le_ab=a <= b, gt_ab=a > b, ge_ab=a >= b, lt_ba=b < a, le_ba=b <= a, gt_ba=b > a, ge_ba=b >= a)
+print(a, b, 'kelvin:', KA, KB, obs)
+if abs(KA - KB) <= 2e-7 * (abs(KA) + abs(KB) + 1):
+    print('tie zone: nothing required'); sys.exit(0)
+lt = KA < KB
+want = dict(lt_ab=lt, le_ab=lt, gt_ab=not lt, ge_ab=not lt, lt_ba=not lt, le_ba=not lt, gt_ba=lt, ge_ba=lt)
+bad = {{k: (bool(obs[k]), want[k]) for k in obs if bool(obs[k]) != want[k]}}
+if bad:
+    print('REPRODUCED: the order between two temperatures depends on the scales they are written in:', bad); sys.exit(1)
+sys.exit(0)
+"""
 
 
 def tasks_for(tier: str) -> List[Tuple]:
